@@ -8,6 +8,7 @@ every eager response and trailing code.
 """
 import asyncio
 import itertools
+from datetime import datetime
 
 from repid import MessageDependency, Queue
 from repid.converter import BasicConverter
@@ -16,6 +17,7 @@ from repid.message import MessageCategory
 from ..explore import Acc, digest
 from ..harness import Exec, actor_log
 from ..scenario import fixed_policy, run_worker
+from ..vloop import CLOCK
 
 ID = "C16"
 LEVEL = "model_checking"
@@ -104,6 +106,15 @@ def run_a(case):
                         cnt = tried + 1
                     want = (None, [(kind_, cnt)])
                     done = True
+                if exc is None and a in ("retry", "force_retry") and not viol:
+                    # a retry asked for through a plain handle, without a delay, is due at once
+                    rq = [r for r in x.log[mark:] if r[1] == "call" and r[7] == 0 and r[2] == "requeue"][-1:]
+                    nxt = rq[0][5]["next"] if rq and rq[0][5] else None
+                    off = None if nxt is None else (datetime.fromisoformat(nxt) - CLOCK.now()).total_seconds()
+                    if off is None or abs(off) > 0.001:
+                        viol.append(("retry-delay", f"{a}() without a delay re-queued the message with next execution "
+                                                    f"{'unset' if off is None else '%+.3fs from now' % off}"))
+                        break
                 if (exc, calls) != want:
                     viol.append(("api", f"{a} (step {len(trace)} of {case['seq']}, category {cat}, retries {mx}/{tried}) -> "
                                         f"exception {exc}, broker calls {calls}; expected exception {want[0]}, calls {want[1]}"))
